@@ -340,12 +340,17 @@ func trimRecv(loc string) string {
 
 // BetweenStop is Between with barrier instructions: paths that execute an instruction satisfying stop are dropped.
 func (pc *PathCounter) BetweenStop(fn *ssa.Function, from ssa.Instruction, end, stop func(ssa.Instruction) bool) (int, int, bool) {
-	type mm struct{ lo, hi int }
-	in := map[*ssa.BasicBlock]mm{}
 	startB, startI := fn.Blocks[0], 0
 	if from != nil {
 		startB, startI = from.Block(), instrIndex(from)+1
 	}
+	return pc.FromPos(fn, startB, startI, end, stop)
+}
+
+// FromPos counts from instruction index startI of block startB.
+func (pc *PathCounter) FromPos(fn *ssa.Function, startB *ssa.BasicBlock, startI int, end, stop func(ssa.Instruction) bool) (int, int, bool) {
+	type mm struct{ lo, hi int }
+	in := map[*ssa.BasicBlock]mm{}
 	resLo, resHi := 99, -1
 	process := func(b *ssa.BasicBlock, i int, v mm) (mm, bool) {
 		for ; i < len(b.Instrs); i++ {
